@@ -36,6 +36,7 @@ def run(ctx):
     ctx.do(rule_reject)
     ctx.do(rule_descends)
     ctx.do(rule_every_entry_yielded)
+    ctx.do(rule_one_judge_of_selectors)
     from .hidden_state import rule_no_hidden_state
     ctx.do(rule_no_hidden_state, "C08.history-independence")
     from .pitfalls import rule_loops_not_cut_short
@@ -604,3 +605,31 @@ def rule_descends(ctx, rule_id="C08.descends-into-objects"):
         run.check(not other, rule_id, key(f_.module.relpath, f_.qualname, "descent-guarded-by-type-only:%s" % short(c, 40)),
                   "a descent of the selector walk depends on something other than the type of the value", file=f_.module.relpath,
                   line=c.lineno, function=f_.qualname, expected="isinstance tests only", found=[short(t) for t in other])
+
+
+def rule_one_judge_of_selectors(ctx, rule_id="C08.reject"):
+    """"Valid exactly when it addresses something" has ONE judge: the walk over the content in markings/utils.py.  A second
+    place that refuses selectors (a 'cheap pre-check' against the class's property table, a name pattern) judges by something
+    else than the content and refuses selectors that address real values (toplevel-extension properties, custom properties not
+    named x_...).  Who-may-raise: InvalidSelectorError is raised nowhere outside markings/utils.py."""
+    run = ctx.run
+    prog = ctx.prog
+    n_in = 0
+    k_ = 0
+    for fi in sorted(prog.functions.values(), key=lambda f: f.id):
+        if fi.module.relpath.startswith("stix2/test"):
+            continue
+        for r in body_walk(fi.node):
+            if isinstance(r, ast.Raise) and exc_name(r) == "InvalidSelectorError":
+                if fi.module.name == MU:
+                    n_in += 1
+                    continue
+                k_ += 1
+                run.violation(rule_id, key(fi.module.relpath, fi.qualname, "second-judge-of-selectors#%d" % k_),
+                              "selectors are refused outside the selector walk: this test does not look at the content the selector "
+                              "addresses, so it can refuse a selector that addresses a real value (or disagree with the marking "
+                              "functions, which only ask the walk)", file=fi.module.relpath, line=r.lineno, function=fi.qualname,
+                              expected="InvalidSelectorError raised only by stix2/markings/utils.py", found=short(r, 80))
+    if n_in < 2:
+        raise AnalysisError("fewer than 2 selector refusals found in markings/utils.py (%d): anchors lost" % n_in)
+    run.ok(rule_id, key("stix2/markings/utils.py", "<module>", "only-judge-of-selectors"))
